@@ -268,7 +268,9 @@ def native(path):
     os.chmod(path, 0o755)
     outs = []
     for _ in range(2):
-        rc, so, se = vlib.run([path], timeout=10)
+        rc, so, se = vlib.run([path], timeout=30)
+        if rc == "timeout":                     # loaded machine: one retry decides
+            rc, so, se = vlib.run([path], timeout=300)
         outs.append((rc, so))
         if rc != 0 or len(so) != 11 or so[8:] != b"OK\n":
             return False, "exit=%r stdout=%r stderr=%r" % (rc, so[:40], se[:120]), None, None
@@ -286,6 +288,8 @@ def job(item):
         pass
     argv = link_argv(arch, kind, relr) + ["-o", "out"]
     rc, msg = wildrun.server_link(argv, cwd=d)
+    if rc == "timeout":      # a loaded machine, or a hang: one retry with a long limit decides
+        rc, msg = wildrun.server_link(argv, cwd=d, timeout=600)
     problems, obs, nat = [], {}, None
     if rc == 0:
         try:
@@ -383,6 +387,52 @@ def replay(path):
     return 1 if bad else 0
 
 
+def oracle_selftest(base):
+    """Sensitivity of the oracle: a GNU ld PIE of a two-word program (one even place -> RELR, one
+    odd place -> RELA) is corrupted in 6 ways; each must draw the expected finding."""
+    words = ((8, 0, 0, "local"), (1, 0, 1, "global"))
+    d = os.path.join(base, "self")
+    os.makedirs(d, exist_ok=True)
+    write_inputs(d, "x86_64", "shared", words)
+    p = subprocess.run(["ld", *link_argv("x86_64", "pie", "z", linker="ld"), "-o", "self.out"],
+                       cwd=d, stdout=subprocess.PIPE, stderr=subprocess.PIPE)
+    if p.returncode != 0:
+        return 0, ["GNU ld failed: " + p.stderr.decode()[-200:]]
+    path = os.path.join(d, "self.out")
+    good = open(path, "rb").read()
+    problems, obs = judge(path, words)
+    if problems or obs["n_relr"] != 1 or obs["cover"] != [["relr"], ["rel"]]:
+        return 0, ["pristine output: %r %r" % (problems, obs)]
+    e = elfread.Elf(data=good)
+    rela, relr = e.section(".rela.dyn"), e.section(".relr.dyn")
+    ent = next(i for i in range(rela.sh_size // 24)
+               if struct.unpack_from("<Q", good, rela.sh_offset + 24 * i + 8)[0] & 0xffffffff == 8)
+    ro = rela.sh_offset + 24 * ent
+    relr_word = struct.unpack_from("<Q", good, relr.sh_offset)[0]
+    cases = []
+
+    def case(want, off, value):
+        buf = bytearray(good)
+        struct.pack_into("<Q", buf, off, value)
+        cases.append((want, bytes(buf)))
+
+    place = struct.unpack_from("<Q", good, ro)[0]
+    case("uncovered", ro + 8, 0)                       # RELATIVE -> NONE
+    case("uncovered", ro, place + 16)                  # RELATIVE moved off the word
+    case("overlap", ro, place + 1)                     # ... onto a straddling place
+    case("shift", ro + 8, 1)                           # RELATIVE -> R_X86_64_64 against symbol 0
+    case("relr-stray", relr.sh_offset, relr_word + 16)   # RELR entry names another place
+    case("double", ro, relr_word)                      # RELA and RELR on the same word
+    missed = []
+    for want, blob in cases:
+        with open(path, "wb") as f:
+            f.write(blob)
+        got = {k for k, _ in judge(path, words)[0]}
+        if want not in got:
+            missed.append("%s (oracle said %s)" % (want, sorted(got)))
+    return len(cases), missed
+
+
 def main():
     chk = vlib.Check("C09", "exploration")
     if chk.args.replay:
@@ -403,7 +453,8 @@ def main():
         if relr != "pdr" or arch == "aarch64":
             if arch == "x86_64":
                 # GNU ld: every x86-64 member in the thorough tier, every 4th in the quick tier
-                if chk.thorough or i % 4 == 0:
+                # (and every member whose alignment-1 probe section is pushed to an odd address)
+                if chk.thorough or i % 4 == 0 or any(w[0] == 1 and w[1] == 1 for w in words):
                     refs.append("ld")
             elif (chk.thorough and i % 3 == 0) or i % 24 == 0:
                 refs.append("lld")
@@ -419,10 +470,21 @@ def main():
     twin = {}
     results = []
     samples = []
+    capped = False
     t0 = time.time()
     with vlib.scratch("c09") as base:
         G["base"] = base
-        results = wildrun.pmap(job, items, chunksize=8)
+        n_self, missed = oracle_selftest(base)
+        if missed:
+            chk.machinery("oracle self-test: corruption not detected / setup failed: %s" % missed)
+        cap_s = int(os.environ.get("VERIF_WALL_CAP", 840 if chk.thorough else 50))
+        for r in vlib.pmap_unordered(job, items, chunksize=8):
+            results.append(r)
+            if time.time() - t0 > cap_s:
+                capped = True
+                break
+    order = {(it[0], it[1], it[2], it[3]): i for i, it in enumerate(members(chk))}
+    results.sort(key=lambda r: order[(r[0], r[1], r[2], r[3])])
     for arch, kind, relr, words, rc, msg, problems, obs, nat, refres in results:
         if rc == 0:
             twin[(arch, kind, words)] = obs.get("parity")
@@ -431,7 +493,9 @@ def main():
         rep = {"arch": arch, "kind": kind, "relr": relr, "words": words,
                "describe": describe(arch, kind, relr, words)}
         tkinds = "+".join(w[3] for w in words)
-        ref_ok = any(rrc == 0 and not rprob for _r, rrc, rprob, *_ in refres)
+        ref_ok = "not run on this member in this tier" if not refres else \
+            "; ".join("%s: %s" % (r, "links it, its output passes the oracle" if rrc == 0 and not rprob
+                                  else "rc=%s %s" % (rrc, rprob)) for r, rrc, rprob, *_ in refres)
         if rc == 0:
             st["accepted"] += 1
             for (sp, wp), w in zip(obs.get("parity", []), words):
@@ -464,7 +528,8 @@ def main():
         elif rc == 1:
             st["rejected"] += 1
             first = msg.strip().split("\n")
-            line = next((l.strip() for l in first if ALLOC_ERR.search(l)), first[0].strip())
+            line = next((l.strip() for l in first if ALLOC_ERR.search(l)),
+                        [l.strip() for l in first if l.strip()][-1])
             if ALLOC_ERR.search(msg):
                 par = twin.get((arch, kind, words))
                 odd_sec = any(sp for sp, _wp in par) if par else any(
@@ -472,7 +537,7 @@ def main():
                 key = "relr-parity:odd-section-address" if (relr != "off" and odd_sec) else \
                     "alloc-error:%s:%s:%s" % (kind, "relr" if relr != "off" else "norelr", tkinds)
                 chk.violation(key, "[%s %s %s %s] wild fails with an allocation-accounting "
-                              "internal error: %s (reference linker links the member: %s)"
+                              "internal error: %s (reference linker: %s)"
                               % (arch, kind, relr, cell_name(words), line[:200], ref_ok), rep)
             else:
                 rk = "%s %s %s: %s" % (arch, kind, tkinds, re.sub(r"0x[0-9a-f]+|#\d+|\d+", "N",
@@ -512,7 +577,10 @@ def main():
                 "distinct_nontrivial = distinct (arch, kind, relr, alignment, observed section "
                 "address parity, offset, target) cells among accepted outputs (the parity is read "
                 "from the output, not assumed)",
-        "exhaustive": True,
+        "exhaustive": not capped,
+        "capped": "wall cap hit after %d of %d members" % (len(results), len(items)) if capped
+                  else None,
+        "members_planned": len(items),
         "wild_links": st["links"], "wild_accepted": st["accepted"], "wild_rejected": st["rejected"],
         "wild_rejections_by_message": {k: len(v) for k, v in sorted(rejected.items())},
         "observed_parity_cells": sorted("%s:align%d:section-%s:place-%s"
@@ -523,6 +591,8 @@ def main():
         "native_members": st["native_members"], "native_ok": st["native_ok"],
         "native_runs": st["native_runs"], "native_members_with_two_distinct_bases":
             st["distinct_bases"],
+        "oracle_selftest": "%d corruptions of a GNU ld output's dynamic relocations, all detected"
+                           % n_self,
         "calibration": refst,
         "subprocesses": st["native_runs"] + refst["ld"]["links"] + refst["lld"]["links"]
         + 2 * refst["ld"]["native_members"] + 9,
